@@ -535,6 +535,43 @@ def header_closure_cases():
     return out
 
 
+def loop_target_cases():
+    """for-in / for-of whose target is not a fresh `var`: an existing variable (local, captured, parameter, global,
+    grandparent) or a member / element reference; read inside the body, by closures made in the body, and after the loop."""
+    out = []
+    iters = {"of": "[10, 20, 30]", "in": "{p: 1, q: 2}"}
+    targets = {
+        "local": ("var x;", "x"), "param": ("", "x"), "captured-before": ("var x; var g0 = function () { return x };", "x"),
+        "member": ("var o = {x: 0};", "o.x"), "element": ("var a = [0];", "a[0]"), "computed": ("var o = {x: 0}, k = 'x';", "o[k]"),
+    }
+    uses = {
+        "body-read": ("acc.push(%(t)s);", ""),
+        "closure-in-body": ("fs.push(function () { return %(t)s });", "acc = fs.map(function (f) { return f() });"),
+        "closure-before": ("acc.push(typeof g0 === 'function' ? g0() : -1);", ""),
+        "nested-function-write": ("(function () { acc.push(%(t)s) })();", ""),
+        "after-loop": ("", "acc.push(%(t)s);"),
+        "break-then-read": ("if (acc.length == 1) break; acc.push(%(t)s);", "acc.push(%(t)s);"),
+    }
+    scopes = {
+        "function": "function f(x) { var acc = [], fs = []; %(decl)s for (%(t)s %(kw)s %(it)s) { %(body)s } %(after)s return acc.join() } __out(f(5)); f(6)",
+        "nested": "function f(x) { %(decl)s return (function () { var acc = [], fs = []; for (%(t)s %(kw)s %(it)s) { %(body)s } %(after)s return acc.join() })() } __out(f(5)); f(6)",
+        "top-level": "var x = 5, acc = [], fs = []; %(decl)s for (%(t)s %(kw)s %(it)s) { %(body)s } %(after)s acc.join()",
+    }
+    for kw, it in iters.items():
+        for tn, (decl, t) in targets.items():
+            for un, (body, after) in uses.items():
+                for sn, tmpl in scopes.items():
+                    if sn == "top-level" and tn == "param":
+                        continue
+                    d = decl
+                    if sn == "nested" and tn in ("local", "captured-before"):
+                        pass
+                    src = tmpl % {"decl": d if not (sn == "top-level" and tn == "local") else "", "t": t, "kw": kw, "it": it,
+                                  "body": body % {"t": t}, "after": after % {"t": t}}
+                    out.append(("tgt/%s/%s/%s/%s :: %s" % (kw, tn, un, sn, src), {"src": src, "tl": TL}))
+    return out
+
+
 def hoisting_cases():
     out = []
     for label, src in HOISTING:
@@ -596,6 +633,9 @@ def core_spaces():
         _space("c05_labels", label_cases, "loops of 5 kinds carrying 1-3 labels with an inner loop carrying 0-2 labels; break/continue to "
                "every label (and unlabelled) from the inner body, through a switch, a try/finally or a labelled block", "labels",
                lambda cid, p, exp: True),
+        _space("c05_loop_targets", loop_target_cases, "for-in / for-of over 6 target forms that are not a fresh var (existing local, parameter, "
+               "variable already captured by a closure, member, element, computed member) x 6 uses (read in the body, closure made in the body, "
+               "closure made before, nested function, after the loop, after break) x 3 scopes", "2 x 6 x 6 x 3", lambda cid, p, exp: True),
         _space("c05_header_closures", header_closure_cases, "closures created in statement-header expressions (if/while/do/for init-test-update, "
                "switch discriminant and case test, return/throw operands, for-in/of subjects, ternary, logical, member key) capturing a "
                "parameter, a local, a later-written local, a grandparent variable or a global", "17 positions x 5 scopes",
